@@ -164,3 +164,14 @@ func VerifC05Chase(c *Cache, wreq *middleware.Request, do bool) (body []byte, in
 	b, inf, built := composeWireChase(dst, wreq, alias, segs[:n])
 	return b, inf, n, true, built
 }
+
+// VerifC05RecordDenialProof installs a validated aggressive-denial proof
+// exactly as ResponseWriter.WriteMsg does for a response carrying
+// validated-proof provenance (the scripted upstream cannot attach it).
+func VerifC05RecordDenialProof(c *Cache, proof *dns.Msg, zone string, nsec3 bool) bool {
+	kind := middleware.ValidatedNegativeProofNSEC
+	if nsec3 {
+		kind = middleware.ValidatedNegativeProofNSEC3
+	}
+	return c.store.RecordDenialProof(proof, zone, kind, time.Time{})
+}
